@@ -7,8 +7,13 @@ Tie (b): harness/c16_driver.py runs billiard's REAL queue classes, including the
 Queue._feed, over harness/detsched.py under explicit schedules; the Coq interpreter consumes the
 same schedule; micro-traces, results, final semaphores, pipe and buffers must be identical;
 Gallina monitors on the implementation's trace classify differences."""
+import itertools
 import json
+import os
 import random
+import re
+import subprocess
+import time
 from vlib import core
 from vlib.core import cz, cbool, clist
 
@@ -42,7 +47,53 @@ From BV Require Import Lib.Cases Model.SemProg Model.QueueProg Model.QueueCode M
 Import ListNotations. Open Scope Z_scope.
 Definition check_case := QueueCheck.check_case.'''
 
+SEARCH_HEADER = '''From Coq Require Import ZArith List Bool.
+From BV Require Import Lib.Cases Model.SemProg Model.QueueProg Model.QueueCode Model.QueueCheck Model.QueueSearch.
+Import ListNotations. Open Scope Z_scope.
+'''
+
 KINDS = {'queue': 0, 'joinable': 1, 'simple': 2}
+
+# Search on the GENERATED program table (Model/QueueSearch.v: all schedules with at most
+# `preemptions` preemptions, every monitor of Model/QueueCheck.v judged at every leaf), `shards`
+# coqc processes per configuration.  What it finds is replayed on the real classes.
+SEARCH_QUICK = [
+    dict(kind='joinable', maxsize=1, preemptions=2, shards=[1],
+         scripts=[[[3, 0, 1, 11]], [[1, 0, 1, 0], [4, 0, 0, 0]], [[5, 0, 0, 0]]]),
+    dict(kind='joinable', maxsize=2, preemptions=2, shards=[1],
+         scripts=[[[3, 0, 1, 11], [5, 0, 0, 0]], [[1, 0, 1, 0], [4, 0, 0, 0]]]),
+    dict(kind='joinable', maxsize=2, preemptions=1, shards=[1],
+         scripts=[[[3, 0, 1, 11], [3, 0, 1, 12]], [[1, 0, 1, 0], [4, 0, 0, 0], [1, 0, 1, 0], [4, 0, 0, 0]], [[5, 0, 0, 0]]]),
+    dict(kind='queue', maxsize=1, preemptions=2, shards=[1],
+         scripts=[[[0, 0, 1, 11], [0, 0, 0, 12]], [[1, 0, 1, 0], [1, 0, 0, 0]]]),
+    dict(kind='simple', maxsize=1, preemptions=2, shards=[1],
+         scripts=[[[6, 0, 0, 11], [6, 0, 0, 12]], [[7, 0, 0, 0]], [[7, 0, 0, 0]]]),
+]
+# the quick tier when an obligation is broken (the generated program is no longer the hand-kept
+# model: failing-input search), and part of the thorough tier
+SEARCH_DEEP = [
+    dict(kind='joinable', maxsize=1, preemptions=3, shards=[3],
+         scripts=[[[3, 0, 1, 11]], [[1, 0, 1, 0], [4, 0, 0, 0]], [[5, 0, 0, 0]]]),
+    dict(kind='joinable', maxsize=2, preemptions=3, shards=[2],
+         scripts=[[[3, 0, 1, 11], [5, 0, 0, 0]], [[1, 0, 1, 0], [4, 0, 0, 0]]]),
+    dict(kind='joinable', maxsize=2, preemptions=2, shards=[3],
+         scripts=[[[3, 0, 1, 11], [3, 0, 1, 12]], [[1, 0, 1, 0], [4, 0, 0, 0], [1, 0, 1, 0], [4, 0, 0, 0]], [[5, 0, 0, 0]]]),
+    dict(kind='joinable', maxsize=1, preemptions=1, shards=[1],
+         scripts=[[[3, 0, 1, 11], [5, 0, 0, 0]], [[3, 0, 1, 12], [5, 0, 0, 0]], [[1, 0, 1, 0], [4, 0, 0, 0], [1, 0, 1, 0], [4, 0, 0, 0]]]),
+    dict(kind='queue', maxsize=1, preemptions=3, shards=[1],
+         scripts=[[[0, 0, 1, 11], [0, 0, 0, 12]], [[1, 0, 1, 0], [1, 0, 0, 0]]]),
+    dict(kind='queue', maxsize=2, preemptions=1, shards=[1],
+         scripts=[[[0, 0, 1, 11], [0, 1, 1, 12]], [[0, 0, 1, 13]], [[1, 0, 1, 0], [1, 1, 1, 0], [1, 0, 0, 0]]]),
+    dict(kind='simple', maxsize=1, preemptions=3, shards=[1],
+         scripts=[[[6, 0, 0, 11], [6, 0, 0, 12]], [[7, 0, 0, 0]], [[7, 0, 0, 0]]]),
+]
+SEARCH_THOROUGH = [
+    dict(kind='joinable', maxsize=1, preemptions=2, shards=[3, 3],
+         scripts=[[[3, 0, 1, 11], [5, 0, 0, 0]], [[3, 0, 1, 12], [5, 0, 0, 0]], [[1, 0, 1, 0], [4, 0, 0, 0], [1, 0, 1, 0], [4, 0, 0, 0]]]),
+    dict(kind='queue', maxsize=2, preemptions=2, shards=[3, 2],
+         scripts=[[[0, 0, 1, 11], [0, 1, 1, 12]], [[0, 0, 1, 13]], [[1, 0, 1, 0], [1, 1, 1, 0], [1, 0, 0, 0]]]),
+]
+SEARCH_FUEL = 400
 
 ENUM_QUICK = [
     dict(kind='queue', maxsize=1, scripts=[[[0, 0, 1, 11]], [[1, 0, 1, 0]]]),
@@ -54,6 +105,8 @@ ENUM_QUICK = [
 BOUNDED_QUICK = [
     dict(kind='joinable', maxsize=1, preemptions=1,
          scripts=[[[3, 0, 1, 11]], [[1, 0, 1, 0], [4, 0, 0, 0]], [[5, 0, 0, 0]]]),
+    dict(kind='joinable', maxsize=2, preemptions=1,
+         scripts=[[[3, 0, 1, 11], [5, 0, 0, 0]], [[1, 0, 1, 0], [4, 0, 0, 0]]]),
     dict(kind='joinable', maxsize=2, preemptions=2,
          scripts=[[[3, 0, 1, 11]], [[1, 0, 1, 0], [4, 0, 0, 0]]]),
     dict(kind='queue', maxsize=1, preemptions=1,
@@ -145,7 +198,109 @@ def nontrivial(r):
     return any(e[1] == 100 and e[2] == 4 for e in r['events']) and len({e[0] for e in r['events']}) >= 2
 
 
+def search_generated(res, deep):
+    """bounded-preemption search for a schedule of the program table compiled from core.REPO on this
+    run on which a C16 monitor fails (Model/QueueSearch.v, vm_compute, one coqc per shard).  The
+    table is inlined into the case files (coq/Gen may be regenerated by a concurrent check of
+    another tree).  Returns replay jobs for the driver: the candidates are only reported after the
+    real classes, run under the same schedule, fail the monitor too."""
+    from kernels import semprog
+    try:
+        module = semprog.queue_module_text(core.REPO, 'GenQ')
+    except Exception as exc:          # the translator failed closed (recorded by proof_step)
+        res.notes.append('search on the generated program skipped: %s: %s' % (type(exc).__name__, str(exc)[:200]))
+        res.add_cov(c16_search=dict(skipped='no generated program'))
+        return []
+    configs = SEARCH_QUICK if not deep else SEARCH_DEEP + (SEARCH_THOROUGH if res.tier != 'quick' else [])
+    cdir = os.path.join(core.COQ, 'Cases')
+    os.makedirs(cdir, exist_ok=True)
+    shards = []
+    for ci, cfg in enumerate(configs):
+        ms = cfg['shards']
+        for j, sel in enumerate(itertools.product(*[range(m) for m in ms])):
+            shards.append(dict(ci=ci, j=j, text=(
+                'Eval vm_compute in (qsearch_job GenQ.code GenQ.FEED GenQ.queue_sems %d %s (%s : list (list qcall)) '
+                '%d %d [%s]%%nat).\n' % (KINDS[cfg['kind']], cz(cfg['maxsize']),
+                                         clist(cfg['scripts'], lambda sc: clist(sc, ccall)),
+                                         cfg['preemptions'], SEARCH_FUEL,
+                                         '; '.join('(%d, %d)' % (a, m) for a, m in zip(sel, ms))))))
+    # one coqc per shard when the search is deep; the small quick configurations share one
+    units = [[sh] for sh in shards] if deep else [shards]
+    files = []
+    for k, unit in enumerate(units):
+        fn = os.path.join(cdir, 'C16s%d_%d.v' % (os.getpid(), k))
+        with open(fn, 'w') as fh:
+            fh.write(SEARCH_HEADER + module + ''.join(sh['text'] for sh in unit))
+        files.append(dict(fn=fn, unit=unit))
+    t0 = time.time()
+    pending, running, done = list(files), [], []
+    try:
+        while pending or running:
+            while pending and len(running) < 8:
+                f = pending.pop(0)
+                out = open(f['fn'][:-2] + '.out', 'w')
+                f['p'] = subprocess.Popen(['coqc', '-Q', '.', 'BV', '-w', '-notation-overridden',
+                                           os.path.relpath(f['fn'], core.COQ)], cwd=core.COQ, stdout=out,
+                                          stderr=subprocess.STDOUT, text=True, preexec_fn=core._limit_memory)
+                out.close()
+                running.append(f)
+            for f in list(running):
+                if f['p'].poll() is not None:
+                    running.remove(f)
+                    done.append(f)
+            if time.time() - t0 > 900:
+                for f in running:
+                    f['p'].kill()
+                raise RuntimeError('search on the generated program timed out')
+            if running:
+                time.sleep(0.05)
+        per = []
+        found = []
+        for f in done:
+            text = open(f['fn'][:-2] + '.out').read()
+            ms_ = re.findall(r'=\s*\(\s*(\d+)\s*,\s*(\d+)\s*,\s*\[([^\]]*)\]\s*\)', text)
+            if f['p'].returncode != 0 or len(ms_) != len(f['unit']):
+                raise RuntimeError('search shard failed: %s' % text[-1500:])
+            for sh, m in zip(f['unit'], ms_):
+                sh['leaves'], sh['found'] = int(m[0]), int(m[1])
+                sh['sched'] = [[int(x) // 2, bool(int(x) % 2)] for x in m[2].replace('%Z', '').split(';') if x.strip()]
+        for ci, cfg in enumerate(configs):
+            mine = sorted([sh for sh in shards if sh['ci'] == ci], key=lambda sh: sh['j'])
+            hit = [sh for sh in mine if sh['found']]
+            per.append(dict(kind=cfg['kind'], maxsize=cfg['maxsize'], scripts=cfg['scripts'],
+                            preemptions=cfg['preemptions'], leaves=sum(sh['leaves'] for sh in mine),
+                            failing_schedule_found=bool(hit)))
+            for sh in hit[:2]:
+                found.append(dict(kind=cfg['kind'], maxsize=cfg['maxsize'], scripts=cfg['scripts'], sched=sh['sched'],
+                                  mode='replay', origin='search'))
+    finally:
+        for f in files:
+            for ext in ('.v', '.vo', '.vok', '.vos', '.glob', '.out'):
+                try:
+                    os.remove(f['fn'][:-2] + ext)
+                except OSError:
+                    pass
+            try:
+                os.remove(os.path.join(cdir, '.' + os.path.basename(f['fn'])[:-2] + '.aux'))
+            except OSError:
+                pass
+    res.add_cov(c16_search=dict(
+        what='schedules of the GENERATED program table explored in Coq (all with at most K preemptions), every '
+             'C16 monitor judged at every leaf; candidates are replayed on the real classes',
+        configurations=per, leaves=sum(c['leaves'] for c in per), candidates=len(found),
+        deep=bool(deep), wall_s=round(time.time() - t0, 1)))
+    return found
+
+
 def classify(res, records, codes):
+    bad = {i for i, _ in codes}
+    for i, r in enumerate(records):
+        if r.get('origin') == 'search' and not (i in bad and dict(codes)[i] == 2):
+            # the generated program fails a monitor on this schedule, the real classes do not
+            res.broken.append(dict(kind='search', name='schedule fails a C16 monitor on the generated program but not on '
+                                                       'the real classes (end %s)' % r['end'],
+                                   detail=json.dumps(dict(kind=r['kind'], maxsize=r['maxsize'], scripts=r['scripts'],
+                                                          sched=r['sched'], requested=r.get('requested')))[:3000]))
     for i, code in codes:
         r = records[i]
         replay = dict(kind=r['kind'], maxsize=r['maxsize'], scripts=r['scripts'], sched=r['sched'], impl=dict(
@@ -155,19 +310,23 @@ def classify(res, records, codes):
             res.alarms.append(dict(
                 signature='C16:monitor-or-result',
                 what='real %s violates a C16 monitor (loss/duplication/order/capacity/Full/Empty/join) or returns a '
-                     'different result on the same history, under schedule %s of scripts %s: results %s, pipe %s'
+                     'different result on the same history, under schedule %s of scripts %s: results %s, pipe %s, '
+                     'end %s, blocked on %s%s'
                      % (r['kind'], json.dumps(r['sched']), json.dumps(r['scripts']), json.dumps(r['results']),
-                        json.dumps(r['pipe'])),
+                        json.dumps(r['pipe']), r['end'], json.dumps(r['pend']),
+                        ' (schedule found by the search on the generated program, replayed on the real classes)'
+                        if r.get('origin') == 'search' else ''),
                 replay=replay))
         else:
             res.broken.append(dict(kind='correspondence', name='QueueProg interpreter vs real queue classes (micro-trace)',
                                    detail=json.dumps(replay)[:3000]))
 
 
-def correspond(res, n):
+def correspond(res, n, candidates=()):
     rng = random.Random(res.seed * 7919 + 16)
     corpus = json.load(open(core.VERIF + '/corpus/C16.json'))
-    jobs = [dict(c, mode='replay') for c in corpus]
+    jobs = list(candidates)
+    jobs += [dict(c, mode='replay') for c in corpus]
     jobs += [dict(j, mode='enumerate', max_leaves=300) for j in ENUM_QUICK]
     jobs += [dict(j, mode='bounded', max_leaves=1500) for j in BOUNDED_QUICK]
     if res.tier != 'quick':
@@ -176,6 +335,10 @@ def correspond(res, n):
     jobs += gen_jobs(rng, n)
     out = core.run_driver('c16_driver.py', dict(jobs=jobs), timeout=3000)
     records = out['records']
+    for r in records:
+        if jobs[r['job']].get('origin'):
+            r['origin'] = jobs[r['job']]['origin']
+            r['requested'] = jobs[r['job']]['sched']
     terms = [to_coq(r) for r in records]
     codes, _ = core.coq_eval('C16', HEADER, core.chunks(terms, 200))
     classify(res, records, codes)
@@ -205,11 +368,18 @@ def correspond(res, n):
 
 
 def run(res):
-    res.proof_step('Props/C16.v', extra_targets=['Model/QueueCheck.vo'], kernels_needed=['P_queue'])
+    build = res.proof_step('Props/C16.v', extra_targets=['Model/QueueCheck.vo', 'Model/QueueSearch.vo'],
+                           kernels_needed=['P_queue'])
+    if not build['ok']:
+        # a broken proof stops make: the executable checkers are still needed
+        core.coq_make(['Model/QueueCheck.vo', 'Model/QueueSearch.vo'])
     n = 240 if res.tier == 'quick' else 15000
     if res.broken:
         n = max(n, 2400)
-    correspond(res, n)
+    # the model follows the code: look for a failing schedule on the program table compiled on this
+    # run (deeper when an obligation is broken); candidates are replayed on the real classes first
+    candidates = search_generated(res, deep=bool(res.broken) or res.tier != 'quick')
+    correspond(res, n, candidates)
     res.assumptions += [
         'semaphore primitive as in C17 (Model/SemProg.v); threading.Condition modelled by harness/c16_fakes.TCond',
         'the pipe is a list of whole messages (C13 + reader/writer locks); send never blocks; pickling not modelled (messages are integers)',
